@@ -22,6 +22,7 @@ import (
 	"sync/atomic"
 
 	"github.com/olive-io/bpmn/schema"
+	"github.com/olive-io/bpmn/v2/internal/verifhook"
 	"github.com/olive-io/bpmn/v2/pkg/event"
 	"github.com/olive-io/bpmn/v2/pkg/logic"
 	"github.com/olive-io/bpmn/v2/pkg/tracing"
@@ -68,6 +69,7 @@ func (evt *catchEvent) run(ctx context.Context, sender tracing.ISenderHandle) {
 		case msg := <-evt.mch:
 			switch m := msg.(type) {
 			case processEventMessage:
+				verifhook.Point("catch.process_event")
 				if evt.activated.Load() {
 					evt.tracer.Send(EventObservedTrace{Node: evt.element, Event: m.event})
 					if satisfied, _ := evt.satisfier.Satisfy(m.event); satisfied {
